@@ -164,8 +164,8 @@ TABLE: list = [
     F("C14", "mark::Mark.add_to_set", "ret", r".", r"^(set|copy)$", "add_to_set returns the unchanged input or the single-pass copy (every element was examined)"),
     G("C14", "mark::Mark.add_to_set", "call", r"^copy\.append\(self\)$", ["not placed"], "the new mark is placed exactly once", min=2),
     F("C14", "mark::Mark.add_to_set", "call", r"^copy\.(extend|append|insert)\(", r"^copy\.append\((self|other)\)$", "every mark enters the result one at a time, after its own exclusion test (no bulk copy of unexamined marks)", min=3),
-    G("C14", "schema::NodeType.allowed_marks", "call", r"^copy\.append\(mark\)$", ["self.allows_mark_type(mark.type)", "copy is not None"], "exactly the allowed marks are kept, in order"),
-    G("C14", "schema::NodeType.allowed_marks", "stmt", r"^copy = marks\[0:i\]$", ["not self.allows_mark_type(mark.type)", "copy is None"], "the copy starts at the first disallowed mark"),
+    G("C14 C11", "schema::NodeType.allowed_marks", "call", r"^copy\.append\(mark\)$", ["self.allows_mark_type(mark.type)", "copy is not None"], "exactly the allowed marks are kept, in order"),
+    G("C14 C11", "schema::NodeType.allowed_marks", "stmt", r"^copy = marks\[0:i\]$", ["not self.allows_mark_type(mark.type)", "copy is None"], "the copy starts at the first disallowed mark"),
     G("C14 C07", "schema::NodeType.allows_marks", "ret", r"^True$", ["self.mark_set is None"], "all marks are allowed only when the node type declares no restriction"),
     F("C14 C07", "schema::NodeType.allows_marks", "ret", r"^all\(", r"^all\(\(self\.allows_mark_type\(mark\.type\) for mark in marks\)\)$", "a mark set is allowed iff every mark's type is allowed"),
     F("C14 C07", "schema::NodeType.allows_mark_type", "ret", r".", r"^self\.mark_set is None or mark_type in self\.mark_set$", "a mark type is allowed iff there is no restriction or it is listed"),
@@ -227,4 +227,14 @@ TABLE: list = [
     F("C01 C03 C13", "astep::AttrStep.apply", "ret", r"^StepResult\.from_replace\(", r"^StepResult\.from_replace\(doc, self\.pos, self\.pos \+ 1, Slice\(Fragment\.from_\(updated\), 0, 0 if node\.is_leaf else 1\)\)$", "a node-level step replaces exactly the node's opening token (pos..pos+1) by an equally sized opening"),
     F("C01 C03 C13", "mstep::AddNodeMarkStep.apply", "ret", r"^StepResult\.from_replace\(", r"^StepResult\.from_replace\(doc, self\.pos, self\.pos \+ 1, Slice\(Fragment\.from_\(updated\), 0, 0 if node\.is_leaf else 1\)\)$", "a node-level step replaces exactly the node's opening token (pos..pos+1) by an equally sized opening"),
     F("C01 C03 C13", "mstep::RemoveNodeMarkStep.apply", "ret", r"^StepResult\.from_replace\(", r"^StepResult\.from_replace\(doc, self\.pos, self\.pos \+ 1, Slice\(Fragment\.from_\(updated\), 0, 0 if node\.is_leaf else 1\)\)$", "a node-level step replaces exactly the node's opening token (pos..pos+1) by an equally sized opening"),
+
+    F("C11", "trepl::close_node_start", "arg:2", r"^close_node_start\(", r"^open_end - 1 if frag\.child_count == 1 else 0$", "below the first child the end stays open only when that child is also the last child (it lies on the slice's open end spine); otherwise the child is closed and filled to a valid end"),
+    G("C11", "trepl::close_node_start", "stmt", r"^frag = frag\.append\(fill_before_frag\)$", ["open_end <= 0", "open_start > 0"], "a node that is not on the open end spine is filled up to a valid end"),
+    G("C11", "trepl::Fitter.close_frontier_node", "stmt", r"^self\.placed = add_to_fragment\(", ["add", "add.child_count"], "closing a frontier node appends the fill its match state requires"),
+    F("C11", "trepl::Fitter.close_frontier_node", "stmt", r"^add = ", r"^add = open_\.match\.fill_before\(Fragment\.empty, True\)$", "a frontier node is closed by filling from its own match state to a valid end"),
+    F("C11", "trepl::content_after_fits", "ret", r"^fit if", r"^fit if fit and \(?not invalid_marks\(type_, node\.content, index\)\)? else None$", "content after the range is kept only if it fits the frontier match and its marks are allowed there"),
+    G("C11", "trepl::content_after_fits", "ret", r"^None$", ["index == node.child_count", "not type_.compatible_content(node.type)"], "an empty tail is refused only for incompatible node types"),
+    G("C11", "trepl::invalid_marks", "ret", r"^True$", ["not type_.allows_marks(fragment.child(i).marks)"], "marks are invalid only when the frontier type disallows them"),
+    G("C11", "trepl::fits_trivially", "ret", r"^from__\.parent\.can_replace\(from__\.index\(\), to_\.index\(\), slice\.content\)$", ["not slice.open_start", "not slice.open_end", "from__.start() == to_.start()"], "the trivial fit is tried only for a closed slice inside one parent"),
+    G("C11", "trepl::replace_step", "ret", r"^ReplaceStep\(from_, to, slice\)$", ["fits_trivially(from__, to_, slice)"], "the direct step is emitted only when the slice fits as it is"),
 ]
